@@ -445,6 +445,35 @@ def r7(ctx, r):
     r.expect(okl, e_, None, "error arm loops", "an error result of receiveSync can lead back to another receive without the exchange being complete: a failing peer is polled again instead of the attempt failing", okdesc="every error arm throws or completes")
 
 
+def r8(ctx, r):
+    """the close signal is recognised: token-wise, case-folded `close`; HTTP/1.0 default"""
+    f = fn(ctx, HC, "responseRequestsClose", HCF)
+    common.require_names(f, ["token", "resp"])
+    cb = [b for b in f.blocks.values() if b.cond is not None and common.cmp_parts(b.cond) and common.cmp_parts(b.cond)[0] == "==" and key_of(strip_views(common.cmp_parts(b.cond)[1])) == "token" and
+          [x.get("v") for x in walk(common.cmp_parts(b.cond)[2]) if x.get("k") == "str"] == ["close"]]
+    r.instance()
+    ok = len(cb) == 1 and any(e.kind == "stmt" and e.node.get("k") == "ret" and const_value(strip_casts(e.node.get("v") or {})) == 1 for e in f.blocks[cb[0].succs[0]].elems)
+    r.expect(ok, f, None, "close token", "responseRequestsClose does not return true for a `close` token of the Connection header: a connection the server is about to close stays cached and the next request fails on it",
+             okdesc="token == \"close\" → true")
+    fold = [e for e in f.stmts() if e.node.get("k") == "call" and last(e.node.get("callee", "")) == "transform" and "token.begin()" in show(e.node)]
+    lam_ok = any("asciiLower" in show(x.node) or "tolower" in show(x.node) for (ln, lf) in f.lambdas for x in lf.stmts())
+    r.instance()
+    r.expect(bool(fold) and lam_ok and cb and all(search(f, e, lambda x: x.block is cb[0], eh=False) is not None for e in fold), f, None, "close token case", "the Connection tokens are not case-folded before the comparison (`Connection: Close` is missed)",
+             okdesc="tokens lower-cased before comparison")
+    sp = [e for e in f.stmts() if e.node.get("k") == "mcall" and last(e.node.get("callee", "")) == "find" and [const_value(x) for x in walk(e.node["args"][0]) if x.get("k") == "char"] == [ord(",")]]
+    hd = [e for e in f.stmts() if e.node.get("k") == "mcall" and last(e.node.get("callee", "")) == "find" and [x.get("v") for x in walk(e.node["args"][0]) if x.get("k") == "str"] == ["Connection"]]
+    r.instance()
+    r.expect(len(sp) == 1 and len(hd) == 1, f, None, "token list", "the Connection header is not looked up and split on commas", okdesc="Connection header split on ','")
+    rets = [e for e in common.returns(f) if "httpVersion" in show(e.node)]
+    r.instance()
+    r.expect(len(rets) == 1 and '"1.0"' in show(rets[0].node) and "==" in show(rets[0].node), f, None, "HTTP/1.0 default", "without a Connection directive an HTTP/1.0 response is not treated as closing", okdesc="no directive: close iff HTTP/1.0")
+    # keep-alive only wins when no close token was seen: the `return false` for keep-alive is after the token loop
+    kf = [e for e in common.returns(f) if const_value(strip_casts(e.node.get("v") or {})) == 0]
+    r.instance()
+    r.expect(len(kf) == 1 and cb and search(f, kf[0], lambda x: x.block is cb[0], eh=False) is None, f, None, "keep-alive precedence", "a keep-alive token ends the scan before a later `close` token is seen", okdesc="keep-alive decided only after all tokens")
+
+
+
 def anchors(ctx, r):
     tab = [(fn(ctx, HC, "performRequest", HCF), ["attempt", "retries", "method"]), (fn(ctx, HC, "executeRequest", HCF), ["reusable", "forceEvict", "framing", "recvResult", "complete", "lease", "sendResult"]),
            (fn(ctx, HC, "frameResponse", HCF), ["forceEvict", "data"]), (fn(ctx, HC, "isIdempotentMethod", HCF), ["method"])]
@@ -464,4 +493,5 @@ def run(ctx, ck):
     ck.run_rule("C17-R4", "at most retries+1 attempts", "A2 dominance", lambda r: r4(ctx, r))
     ck.run_rule("C17-R5", "a connection that saw a failure, a close signal or surplus bytes is evicted", "A2 + A9", lambda r: r5(ctx, r))
     ck.run_rule("C17-R6", "cache and lease under the client mutex; lease held for the whole exchange", "A1 + A2", lambda r: r6(ctx, r))
+    ck.run_rule("C17-R8", "the server's close signal is recognised (token-wise, case-folded; HTTP/1.0 default)", "A10 table + order", lambda r: r8(ctx, r))
     ck.run_rule("C17-R7", "every blocking call has a configured timeout, runs without the client mutex; timeout is an error", "A2 + A1", lambda r: r7(ctx, r))
